@@ -188,17 +188,23 @@ def build_all(log):
 
 
 def gen_model(st, log):
-    """Go source -> Generated/Src.v (tools/gen_model).  A function whose translation does not compile is left out
-    (and with it what calls it) and the translation is repeated; what could not be translated is recorded."""
-    srcv = os.path.join(COQ, 'Generated', 'Src.v')
-    rep = os.path.join(WORK, 'gen_model.json')
+    """Go source -> Generated/Src.v (native build) and Generated/SrcWasm.v (js/wasm build of the library)"""
+    gen_model_one(st, log, 'Src', 'gen_model.json', [], 'source_translation')
+    gen_model_one(st, log, 'SrcWasm', 'gen_model_wasm.json', ['-wasm'], 'source_translation_wasm')
+
+
+def gen_model_one(st, log, module, repname, flags, key):
+    """tools/gen_model.  A function whose translation does not compile is left out (and with it what calls it) and the
+    translation is repeated; what could not be translated is recorded."""
+    srcv = os.path.join(COQ, 'Generated', module + '.v')
+    rep = os.path.join(WORK, repname)
     env = dict(os.environ, GOPROXY='off')
     env.pop('GOFLAGS', None); env.pop('GOWORK', None); env.pop('GOSUMDB', None)
     skip, info = [], {'ok': False, 'skipped': [], 'untranslated': {}, 'translated': 0}
     for attempt in range(8):
         if os.path.exists(rep):
             os.remove(rep)
-        rc, out = sh([os.path.join(BIN, 'gen_model'), REPO, srcv, rep] + (['-skip', ','.join(skip)] if skip else []), env=env, timeout=600)
+        rc, out = sh([os.path.join(BIN, 'gen_model'), REPO, srcv, rep] + flags + (['-skip', ','.join(skip)] if skip else []), env=env, timeout=600)
         log.write('--- gen_model %s\n%s' % (skip, out[-1500:]))
         if rc or not os.path.exists(rep):
             with open(srcv, 'w') as f:
@@ -207,18 +213,18 @@ def gen_model(st, log):
             break
         r = json.load(open(rep))
         info['untranslated'], info['translated'] = r.get('untranslated', {}), len(r.get('translated', []))
-        rc, out = sh(['make', 'Generated/Src.vo'], cwd=COQ, timeout=900)
+        rc, out = sh(['make', 'Generated/%s.vo' % module], cwd=COQ, timeout=900)
         if rc == 0:
             info['ok'] = True
             break
-        m = re.search(r'File "\./Generated/Src\.v", line (\d+)', out)
+        m = re.search(r'File "\./Generated/%s\.v", line (\d+)' % module, out)
         bad = None
         if m:
             for i, line in enumerate(open(srcv).read().split('\n')[:int(m.group(1))]):
                 mm = re.match(r'(?:Definition|Fixpoint) (\w+?)(?:_loop\d+)? ', line)
                 if mm:
                     bad = mm.group(1)
-        log.write('--- Src.v does not compile (%s): %s\n' % (bad, out[-800:]))
+        log.write('--- %s.v does not compile (%s): %s\n' % (module, bad, out[-800:]))
         names = {n.replace('.', '_'): n for n in r.get('translated', [])}
         if not bad or bad not in names or names[bad] in skip:
             with open(srcv, 'w') as f:
@@ -227,9 +233,9 @@ def gen_model(st, log):
             break
         skip.append(names[bad])
         info['skipped'] = list(skip)
-    st['source_translation'] = info
+    st[key] = info
     if not info['ok'] or info['untranslated']:
-        st['notes'].append('source translation (gen_model): %d functions translated; not translated: %s' % (
+        st['notes'].append('source translation (gen_model ' + module + '): %d functions translated; not translated: %s' % (
             info['translated'], '; '.join('%s (%s)' % kv for kv in sorted(info['untranslated'].items())) or info.get('note', '-')))
 
 
